@@ -235,7 +235,53 @@ func (x *vtx) writeBytes() {
 			}
 		}
 	}
-	calls := g.callNodes(x.writeByte)
+	// the byte sink: WriteByte, or a function that dispatches on the special bytes
+	// itself (a helper WriteByte shares with Write)
+	isSink := func(fn *ssa.Function) bool {
+		if fn == nil {
+			return false
+		}
+		if fn == x.writeByte {
+			return true
+		}
+		var bp *ssa.Parameter
+		for _, p := range fn.Params {
+			if bt, ok := p.Type().Underlying().(*types.Basic); ok && bt.Kind() == types.Uint8 {
+				bp = p
+			}
+		}
+		if bp == nil || len(fn.Blocks) == 0 {
+			return false
+		}
+		gs := scanIG(m, fn, nil)
+		seen := map[uint64]bool{}
+		for _, k := range comparedConstants(gs, func(v ssa.Value) bool { return stripConv(v) == ssa.Value(bp) }) {
+			seen[k] = true
+		}
+		return seen[8] && seen[9] && seen[10] && seen[13]
+	}
+	var calls []int
+	for n, in := range g.Ins {
+		cl, ok := in.(*ssa.Call)
+		if !ok {
+			continue
+		}
+		if isSink(m.callee(cl.Common())) {
+			calls = append(calls, n)
+			continue
+		}
+		// a helper spliced into Write: its byte parameter is the argument itself
+		if m.helperOf(cl) != nil && len(cl.Common().Args) > 0 {
+			a := cl.Common().Args[len(cl.Common().Args)-1]
+			seen := map[uint64]bool{}
+			for _, k := range comparedConstants(g, func(v ssa.Value) bool { return stripConv(v) == stripConv(a) }) {
+				seen[k] = true
+			}
+			if seen[8] && seen[9] && seen[10] && seen[13] {
+				calls = append(calls, n)
+			}
+		}
+	}
 	switch {
 	case bad != "":
 	case dataP == nil:
@@ -244,7 +290,8 @@ func (x *vtx) writeBytes() {
 		bad = fmt.Sprintf("expected one WriteByte call in VT.Write, found %d", len(calls))
 	default:
 		cn := calls[0]
-		arg := g.callArgs(cn)[1]
+		args := g.callArgs(cn)
+		arg := args[len(args)-1]
 		z := &Polyizer{}
 		lf, inLoop := g.loopFormAt(z, g.Ins[cn].Block())
 		if !inLoop {
